@@ -147,7 +147,7 @@ class C04(DimwiseCheck):
                 # than the incremental bookkeeping (recorded under C14) only the documented continuation is driven
                 cfg["two_legs"]["route"] = "continue"
             return {"config": cfg, "ops": []}
-        cfg = DS.gen_cfg(r, tier)
+        cfg = DS.gen_cfg(r, tier, focus_p=0.3)
         cfg["strategy"] = strategy
         if r.random() < 0.15:
             cfg["boundary"] = False
@@ -156,7 +156,8 @@ class C04(DimwiseCheck):
         if cfg["modified_basis"]:
             probes = DS.linear_probes(p, cfg["dim"], 3)
         else:
-            probes = DS.initial_space_probes(p, cfg, 4)
+            # localised histories leave most of the initial grid untouched while maximum levels move: more of the initial space is carried
+            probes = DS.initial_space_probes(p, cfg, 12 if cfg.get("focus") else 4)
         cfg["probes"] = probes
         add_two_legs(cfg, stream(rk, "legs"))
         return {"config": cfg, "ops": []}
